@@ -410,7 +410,20 @@ fn pick_labels(r: &mut StdRng, k: usize) -> Vec<f64> {
 }
 
 /// feature matrix of one of the value families; returns (x, xden, family tag)
-fn gen_x(r: &mut StdRng, n: usize, p: usize) -> (Vec<Vec<f64>>, i64, &'static str) {
+fn gen_x(r: &mut StdRng, n: usize, p: usize, f32mode: bool) -> (Vec<Vec<f64>>, i64, &'static str) {
+    let (mut x, xden, fam) = gen_x64(r, n, p, f32mode);
+    if f32mode {
+        // the values handed to an f32 tree are f32 values
+        for row in x.iter_mut() {
+            for v in row.iter_mut() {
+                *v = (*v as f32) as f64;
+            }
+        }
+    }
+    (x, xden, fam)
+}
+
+fn gen_x64(r: &mut StdRng, n: usize, p: usize, f32mode: bool) -> (Vec<Vec<f64>>, i64, &'static str) {
     let fam = r.gen_range(0..100);
     let mut x = vec![vec![0.0; p]; n];
     if fam < 35 {
@@ -451,12 +464,14 @@ fn gen_x(r: &mut StdRng, n: usize, p: usize) -> (Vec<Vec<f64>>, i64, &'static st
             }
         }
         (x, 8, "dyadic")
-    } else if fam < 95 {
+    } else if fam < 97 {
         // feature values a few units in the last place apart (continuous data at its finest grain)
-        let base = *[1.0f64, 0.1, 3.0, -2.5, 1.0e-3, 12345.678].choose(r).unwrap();
+        let below_one = f64::from_bits(1.0f64.to_bits() - 8);
+        let base = *[1.0f64, below_one, 0.1, 0.7, 3.0, -2.5, 1.0e-3, 12345.678].choose(r).unwrap();
         for row in x.iter_mut() {
             for v in row.iter_mut() {
-                *v = ulps(base, r.gen_range(0..=5));
+                let k = r.gen_range(0..=5u64);
+                *v = if f32mode { f32::from_bits((base as f32).to_bits() + k as u32) as f64 } else { ulps(base, k) };
             }
         }
         (x, 0, "adjacent")
@@ -522,7 +537,17 @@ fn gen_case(r: &mut StdRng, nmax: usize) -> Case {
     }
     .min(nmax);
     let p = r.gen_range(1..=6usize);
-    let (x, xden, fam) = gen_x(r, n, p);
+    let backend: &'static str = match r.gen_range(0..100) {
+        0..=64 => "dense",
+        65..=76 => "dense32",
+        77..=86 => "ndarray_f",
+        87..=91 => "ndarray_c",
+        _ => "nalgebra",
+    };
+    let f32mode = backend == "dense32";
+    // (single precision: the tolerance of the mean grows with the number of rows, see MeanSlack)
+    let n = if f32mode { n.min(60) } else { n };
+    let (x, xden, fam) = gen_x(r, n, p, f32mode);
     let reg = r.gen_bool(0.4);
     let max_depth = if r.gen_bool(0.45) { 0 } else { r.gen_range(1..=8) };
     let (msl, mss) = match r.gen_range(0..10) {
@@ -576,9 +601,22 @@ fn gen_case(r: &mut StdRng, nmax: usize) -> Case {
         y = yy;
     }
     let m = r.gen_range(2..=10usize);
-    let q = gen_queries(r, &x, xden, m);
-    let shift = if r.gen_bool(0.5) { *[1, 1, 2, 3, 7, 10].choose(r).unwrap() } else { 0 };
-    Case { kind, crit, max_depth, msl, mss, x, y, q, xden, yden, family: fam.to_string(), shift, expect: None }
+    let mut q = gen_queries(r, &x, xden, m);
+    if f32mode {
+        for row in q.iter_mut() {
+            for v in row.iter_mut() {
+                *v = (*v as f32) as f64;
+            }
+        }
+    }
+    // rescaling exponents: small ones and far ones (tiny / huge magnitudes, still far from
+    // under- and overflow of the element type)
+    let shift = if r.gen_bool(0.55) {
+        if f32mode { *[1, 2, 7, -30, -60, 30].choose(r).unwrap() } else { *[1, 2, 3, 7, 10, -1, -53, -60, -200, 60, 200].choose(r).unwrap() }
+    } else {
+        0
+    };
+    Case { kind, crit, max_depth, msl, mss, x, y, q, xden, yden, family: fam.to_string(), shift, backend, expect: None }
 }
 
 /// hand-built boundary cases that every run contains
@@ -587,7 +625,7 @@ fn fixed_cases() -> Vec<Case> {
     let mk = |kind: &'static str, crit: &'static str, md: u16, msl: usize, mss: usize, x: Vec<Vec<f64>>, y: Vec<f64>, fam: &str| Case {
         kind, crit, max_depth: md, msl, mss,
         q: vec![x[0].iter().map(|v| v + 0.5).collect(), x[0].iter().map(|v| v - 10.0).collect()],
-        x, y, xden: 1, yden: 1, family: fam.to_string(), shift: 1, expect: None,
+        x, y, xden: 1, yden: 1, family: fam.to_string(), shift: 1, backend: "dense", expect: None,
     };
     let col = |a: &[i64]| -> Vec<Vec<f64>> { a.iter().map(|&v| vec![v as f64]).collect() };
     let yv = |a: &[i64]| -> Vec<f64> { a.iter().map(|&v| v as f64).collect() };
@@ -611,6 +649,35 @@ fn fixed_cases() -> Vec<Case> {
         c.xden = 0;
         c.q = vec![vec![1.0], vec![ulps(1.0, 3)]];
         v.push(c);
+    }
+    // neighbouring doubles below 1.0 and around 0.1 (spacing below machine epsilon)
+    for &(kind, crit) in [("reg", "mse"), ("cls", "entropy")].iter() {
+        for &base in [f64::from_bits(1.0f64.to_bits() - 8), 0.1f64].iter() {
+            let xs: Vec<Vec<f64>> = (0..6u64).map(|k| vec![ulps(base, k)]).collect();
+            let mut c = mk(kind, crit, 0, 1, 0, xs, yv(&[0, 1, 0, 1, 0, 1]), "adjacent");
+            c.xden = 0;
+            c.q = vec![vec![base], vec![ulps(base, 3)]];
+            c.shift = -3;
+            v.push(c);
+        }
+    }
+    // tiny and huge magnitudes: the same integers times 2^-60, 2^-200, 2^60 (f64), 2^-30, 2^-60 (f32)
+    let grid: Vec<Vec<f64>> = (0..9i64).map(|i| vec![(i % 3) as f64, ((i * 4) % 9) as f64, (8 - i) as f64]).collect();
+    for &(backend, shift) in [("dense", -60), ("dense", -200), ("dense", 60), ("dense", 200), ("dense32", -30), ("dense32", -60), ("dense32", 30)].iter() {
+        for &(kind, crit) in [("reg", "mse"), ("cls", "gini")].iter() {
+            let mut c = mk(kind, crit, 0, 1, 1, grid.clone(), yv(&[0, 1, 2, 0, 1, 2, 2, 0, 1]), "farscale");
+            c.shift = shift;
+            c.backend = backend;
+            v.push(c);
+        }
+    }
+    // the other matrix back ends on a non-square set (a layout mix-up cannot go unnoticed)
+    for &backend in ["ndarray_f", "ndarray_c", "nalgebra", "dense32"].iter() {
+        for &(kind, crit) in [("reg", "mse"), ("cls", "gini"), ("cls", "error")].iter() {
+            let mut c = mk(kind, crit, 0, 1, 1, grid.clone(), yv(&[0, 0, 1, 1, 2, 2, 0, 1, 2]), "backend");
+            c.backend = backend;
+            v.push(c);
+        }
     }
     // depth limits on a chain that wants depth 4
     for md in 1..=5u16 {
@@ -688,7 +755,7 @@ fn main() {
                     max_depth: l["maxDepth"].as_u64().unwrap_or(0) as u16,
                     msl: l["msl"].as_u64().unwrap_or(1) as usize,
                     mss: l["mss"].as_u64().unwrap_or(2) as usize,
-                    x, y, q, xden: 1, yden: 1, family: "model".to_string(), shift: 0,
+                    x, y, q, xden: 1, yden: 1, family: "model".to_string(), shift: 0, backend: "dense",
                     expect: Some(l["expect"].clone()),
                 };
                 run += 1;
